@@ -437,6 +437,15 @@ func controllingConds(b *ssa.BasicBlock) []ssa.Value {
 	return out
 }
 
+// mayConds: every condition that can decide (within one loop iteration) whether b executes.
+func mayConds(b *ssa.BasicBlock) []ssa.Value {
+	var out []ssa.Value
+	for _, e := range core.MayConds(b) {
+		out = append(out, e.Cond)
+	}
+	return out
+}
+
 // canon renders a pure value as a canonical expression so that two loads of the same field compare equal.
 func canon(v ssa.Value) string {
 	return canonDepth(v, 0)
